@@ -5,6 +5,21 @@ import json, os, subprocess
 ROOT = os.path.dirname(os.path.dirname(os.path.abspath(__file__)))
 
 CLAIMED = {
+ "C05": dict(
+   text="Kernel/Mount.v: declared mounts (kind, source, target, flag word), the kernel's rules for mount / bind / recursive bind / "
+        "MS_REMOUNT|MS_BIND / pivot_root + detach, `mount_one` (mount, then the read-only remount iff BIND|RDONLY - both implementations) "
+        "and `build_table` (tmpfs root, entries in order, pivot, root remount).  Theorems: C05_table (for EVERY mount list and whatever "
+        "table the process had before, the new table is the read-only root plus exactly the mounts of the declared entries in order; "
+        "nothing of the old root), C05_readonly_top (every entry declared read-only is read-only at its mount point, for every flag "
+        "word - bit-level lemma on BIND|RDONLY), C05_readonly_partial (and everywhere below when the source holds no mounts), "
+        "C05_readonly_refuted (known finding), C05_writable_only_declared, C05_builder_flags.  Tie on every run: 40 generated mount "
+        "tables x {namespace runner, container, container with InitCommand}; /proc/<pid>/mountinfo of the sandboxed process compared in "
+        "Coq with build_table; a probe inside lists /, looks for the old root, writes into every mount and into /, reads a masked path.",
+   note="Partial: mount semantics are the kernel model, validated by mountinfo and the probe on every run; masked paths are checked "
+        "through the probe only; the mkdir / mknod of mount points is not modelled (a wrong one makes the mount fail, which the runs "
+        "report).  Trusted: Coq kernel + vm_compute.",
+   technique="Coq proof over all mount lists and flag words (list induction, bit-level lemmas) + differential comparison of real mount tables from both implementations",
+   design="§5 C05"),
  "C04": dict(
    text="Launch/SecState.v: the option record, `child_steps` (the security-relevant syscalls the child issues, with the three differently "
         "ordered copies of the cap-drop / seccomp / sync code written out), the kernel's credential rules (`apply`: securebits, setuid fix-up, "
